@@ -207,7 +207,7 @@ def coq_make(targets=(), timeout=1500):
         if not os.path.exists(os.path.join(COQ, "Makefile")) or \
                 os.path.getmtime(os.path.join(COQ, "Makefile")) < os.path.getmtime(os.path.join(COQ, "_CoqProject")):
             run(["coq_makefile", "-f", "_CoqProject", "-o", "Makefile"], cwd=COQ, check=True)
-        cmd = ["timeout", str(timeout), "make", "-j16"] + list(targets)
+        cmd = ["timeout", str(timeout), "make", "-k", "-j16"] + list(targets)
         r = run(cmd, cwd=COQ)
         return r.returncode == 0, (r.stdout + r.stderr).decode(errors="replace")
     finally:
